@@ -707,6 +707,10 @@ impl Index {
                 return Err(anyhow!(reorg::Error::Unrecoverable));
               }
             }
+            Some(&reorg::Error::Uncommitted { .. }) => {
+              // the write transaction holding the uncommitted blocks has
+              // been aborted, start over from the last commit
+            }
             Some(&reorg::Error::Unrecoverable) => {
               self
                 .unrecoverably_reorged
